@@ -217,6 +217,7 @@ def check_prog(r, payload, ds, ploidies, thr, den, tagp):
     tag = "%s|thr=%g|posteriors=%s" % (tagp, thr, ds)
     try:
         with patched((asm, "DenovoMCMC", FakeMCMC)), env.app_warnings():
+            env.dirty_heap()
             prog.call_sample_genotypes(data)
     except Exception as e:  # noqa
         from ..synth import root_cause
